@@ -8,37 +8,37 @@ HOME = os.path.dirname(os.path.dirname(os.path.abspath(__file__)))
 T = {
  "C01": ("differential on generated block candidates + invariants at quiescence",
          "Executes real ProcessBlock / CheckConnectBlockTemplate on candidate blocks that are valid or violate exactly one catalogued rule (at-limit and one-past forms), in five delivery contexts on several parameter families, and observes verdicts, the active chain, the UTXO set and notifications after every delivery. Assurance: held on the executions of the run; exploration is the right level because the quantifier (all trees x all candidates x all orders) is unbounded.",
-         "Labels come from the generator's construction (one mutated field per candidate; 99 recipes incl. weight 4 000 000/+1, sigop cost 80 000/+1/+4, BIP68 time locks, CLTV/CSV operands, multiple witness commitments, height-gated rules probed on both sides of their activation height, BIP30, BIP94); scripts inside blocks come from templates (arbitrary programs are C06's job); checkpoints and mainnet-only historical exceptions are not reached.", "§4 C01, Appendix A"),
+         "Labels come from the generator's construction (one mutated field per candidate; 99 recipes incl. weight 4 000 000/+1, sigop cost 80 000/+1/+4, BIP68 time locks, CLTV/CSV operands, multiple witness commitments, height-gated rules probed on both sides of their activation height, BIP30, BIP94); scripts inside blocks come from templates (arbitrary programs are C06's job); checkpoints and mainnet-only historical exceptions are not reached. Families fan (branches on top of a connect-time failure, shared with C02/C17) and lock-time threshold recipes added in §12.7.", "§4 C01, Appendix A"),
  "C02": ("model-based history checking (declarative best-chain oracle) + race detector",
          "Runs the real node on random block trees delivered in disordered, duplicated, header-interleaved orders with restarts and InvalidateBlock/ReconsiderBlock, and after every operation compares the tip with the declarative most-work valid chain and cross-checks every view and the notification stream; concurrent readers run under -race.",
-         "Validity labels from the generator; orphan-pool eviction/expiry (wall clock, 100 entries) kept out of range; ties among chains none of which is the current tip accept any maximal candidate; families reconsider (failed descendant below an invalidated block) and read-fault (one database read fails during a tip extension; goes beyond the stated quantifier, kept because silent).", "§4 C02, §12"),
+         "Validity labels from the generator; orphan-pool eviction/expiry (wall clock, 100 entries) kept out of range; ties among chains none of which is the current tip accept any maximal candidate; families reconsider (failed descendant below an invalidated block) and read-fault (one database read fails during a tip extension; goes beyond the stated quantifier, kept because silent). Family fan (§12.7): branches stored on a connect-time failure, valid way out below it; InvalidateBlock must leave the whole subtree recorded as invalid.", "§4 C02, §12"),
  "C03": ("model-based history checking (definitional UTXO fold) + race detector",
          "Runs the real node through dense-spending histories with reorganisations, flushes of all modes, restarts and disconnect/reconnect of the tip under cache sizes from 0 to 1 GiB and compares FetchUtxoEntry over every outpoint ever created, spend journals, FetchUtxoView and the raw persisted bucket with the fold of the active chain; concurrent readers under -race.",
-         "The refchain fold is the definition (unparseable output scripts are unspendable, as in btcd); half of the post-operation checks are FetchUtxoView probes primed with partial single-entry lookups; cache memory accounting accuracy is not part of the property.", "§4 C03, §12"),
+         "The refchain fold is the definition (unparseable output scripts are unspendable, as in btcd); half of the post-operation checks are FetchUtxoView probes primed with partial single-entry lookups; cache memory accounting accuracy is not part of the property. Outputs include near misses of the compressible script templates; an op drives disconnect/reconnect with an empty cache followed by an unclean stop (§12.7).", "§4 C03, §12"),
  "C04": ("crash-point injection in child processes (SIGKILL at hooked I/O events) + recovery oracle",
          "For seeded workloads and configurations, kills a real child process at sampled (quick) / many (thorough) durable I/O events under process-death and power-loss models, reopens in a fresh process and checks tip-was-active, utxo = fold, acknowledged blocks known and convergence after replay; some recoveries are themselves crashed.",
-         "leveldb atomic-durable at commit return; torn sector writes not modelled; crashes during recovery are enumerated over the start-up I/O events of a recovery with a small cache (family recovery); pruning configurations included (with pruning, readability is judged at store level: has block => serves it byte-identical).", "§4 C04, §9, §12"),
+         "leveldb atomic-durable at commit return; torn sector writes not modelled; crashes during recovery are enumerated over the start-up I/O events of a recovery with a small cache (family recovery); pruning configurations included (with pruning, readability is judged at store level: has block => serves it byte-identical). A fifth of the workloads are prune-heavy (prunes reach across the last forced utxo flush) and a third of the crash points fall right behind a block-file deletion (§12.7).", "§4 C04, §9, §12"),
  "C05": ("model differential + I/O fault and crash enumeration + porcupine serializability + race detector",
          "Random operation programs against a reference nested ordered-map/block-store model; every interposed I/O call failed once; process death / power loss at I/O events with prefix-durability oracle; concurrent readers/writers checked for snapshot stability and strict serializability (porcupine) under -race; sync-ordering trace check.",
-         "leveldb internals trusted; faults injected at the hooked ffldb seams (H1).", "§4 C05, Appendix B"),
+         "leveldb internals trusted; faults injected at the hooked ffldb seams (H1). Family fault-crash (§12.7): one failed I/O call followed by process death a few events later, judged against an in-process run with the same failed call.", "§4 C05, Appendix B"),
  "C06": ("differential against an independent script interpreter + step-limit monitor",
          "Executes txscript.Engine on grammar-generated programs, well-formed spends of every standard type and single-point corruptions under every activation-history flag set, comparing the verdict with an independent reference interpreter calibrated on Core's script/tx/taproot vectors, and monitors stack/element/op-count bounds at every step.",
-         "Agreement is with the reference interpreter, anchored to Bitcoin Core only through vector calibration; signature equations use btcec (decided by C11).", "§4 C06"),
+         "Agreement is with the reference interpreter, anchored to Bitcoin Core only through vector calibration; signature equations use btcec (decided by C11). Pre-BIP66 flag sets run a dedicated family with every production of the lenient DER grammar; spends verified with a signature cache are verified twice (§12.6-12.7).", "§4 C06"),
  "C07": ("differential against an independent sighash implementation + engine round trips + race detector",
          "Compares legacy/BIP143/BIP341/342 digests for all hash-type bytes with an independent implementation (with and without midstates/caches), checks the commits-to relation by field mutation, verifies helper-produced signatures under the engine, and hammers shared caches from 8 goroutines under -race.",
          "Reference calibrated on sighash.json, tx_valid.json and taproot-ref; ECDSA/Schnorr equations via btcec.", "§4 C07"),
  "C08": ("differential against an independent wire codec + hostile-input monitoring (panic, allocation)",
          "Encodes/decodes every message type at every protocol-version breakpoint and both tx encodings against an independent byte-layout reference, checks canonical re-encoding, sizes and ids, and feeds mutated/truncated/oversized inputs while measuring panics and per-call allocation; hostile families also under -race (checkptr).",
-         "Allocation is measured per call (TotalAlloc delta), not bounded analytically; tolerant decoders (version tail, addrv2 unknown ids) are held to value-level idempotence.", "§4 C08"),
+         "Allocation is measured per call (TotalAlloc delta), not bounded analytically; tolerant decoders (version tail, addrv2 unknown ids) are held to value-level idempotence. Family conc.decode: eight concurrent decoders, each result must re-encode to its own input (also in the race variant).", "§4 C08"),
  "C09": ("differential against an independent PoW arithmetic reference (exhaustive sub-domains in thorough)",
          "Compares compact<->target, work, retarget (all network rule variants through the public header-context check), median time, proof-of-work check and subsidy with a big-integer reference over stratified (quick) / all 2^32 (thorough) compact values and every height of the subsidy schedule.",
-         "Reference written from the protocol definition with math/big.", "§4 C09"),
+         "Reference written from the protocol definition with math/big. The e2e chains are replayed on a node with a period-start checkpoint; a difficulty refusal is judged only where btcd's easiest-difficulty estimate provably bounds the retarget rule (block times never step back after the checkpoint).", "§4 C09"),
  "C10": ("invariant checking at quiescence on a full node + state-transition oracles + race detector",
          "Drives mempool+chain+netsync handler+mining with submission/replacement/orphan/block/reorg histories and evaluates I1-I7 (conflict-freedom, input availability, spend index, minability via CheckConnectBlockTemplate, rejected-leaves-unchanged, replacement rules, orphan bounds) after every operation; concurrent submitters/readers/producer under -race.",
-         "H3 snapshot hook exposes internal indexes; wall-clock features (penny limiter, orphan expiry) configured out; the minability probe takes the longest dependency-closed prefix of the pool that fits one block; orphan size boundary and unminable sigop-cost submissions included.", "§4 C10, §12"),
+         "H3 snapshot hook exposes internal indexes; wall-clock features (penny limiter, orphan expiry) configured out; the minability probe takes the longest dependency-closed prefix of the pool that fits one block; orphan size boundary and unminable sigop-cost submissions included. Replacements that spend an output of a transaction they would evict are generated on purpose.", "§4 C10, §12"),
  "C11": ("differential against independent secp256k1 / BIP340 / BIP327 references",
          "Compares ECDSA/Schnorr verification, DER and key parsing, signing, MuSig2 key/nonce aggregation, partial signatures and ECDH with math/big references on honest, algebraically forged, boundary and random inputs.",
-         "Curve arithmetic lives in the decred module outside /repo; constant-time behaviour out of reach.", "§4 C11"),
+         "Curve arithmetic lives in the decred module outside /repo; constant-time behaviour out of reach. Tweak chains with a key-cancelling tweak at any position; Schnorr verification against key objects that are not curve points; parser inputs carry no spare capacity.", "§4 C11"),
  "C12": ("differential accounting of real block templates + end-to-end acceptance + race detector",
          "Generates templates on a full node over varied pool contents and mining policies, recomputes order, fees, sigop costs, coinbase value, witness commitment and merkle root independently, applies UpdateBlockTime/UpdateExtraNonce, solves and submits every template to ProcessBlock.",
          "Sigop cost/weight from the independent refacct package; merkle/commitment from the generator's own code; pay addresses with and without sigops, pools at the 80 000 sigop-cost limit, a halving inside the template-built chain, the min-difficulty family with UpdateBlockTime across the exception boundary, a discarded first template plus fee bump before the mined one.", "§4 C12, §12"),
@@ -47,25 +47,25 @@ T = {
          "References calibrated on mainnet blocks in the repository's testdata and Core's sigop vectors.", "§4 C13"),
  "C14": ("differential against a from-genesis BIP9 evaluation on real chains",
          "Builds real chains over 5-10 confirmation windows with random deployment definitions and votes, forks that vote differently, invalidate/reconsider and restarts; compares ThresholdState / IsDeploymentActive / CalcNextBlockVersion and per-node states (queried in random order) with a naive evaluation, and probes a CSV-gated rule with a BIP113-sensitive template.",
-         "Speedy-trial table selected by the deployment definition; H2 hook VerifDeploymentStateAt for per-node queries.", "§4 C14"),
+         "Speedy-trial table selected by the deployment definition; H2 hook VerifDeploymentStateAt for per-node queries. Both CSV-gated rules (BIP113 lock-time cut-off, OP_CHECKSEQUENCEVERIFY) are probed at the last block of every window and the first of the next.", "§4 C14"),
  "C15": ("differential against an independent on-disk codec + hostile-record injection into a real database",
          "Compares VLQ, amount/script compression, utxo entries, spend journals, best-state and block-index rows with an independent codec (sizes, exact bytes, round trips) and feeds hostile bytes to the decoders directly and through records written into a real database.",
-         "H2 hook exports the unexported codecs.", "§4 C15"),
+         "H2 hook exports the unexported codecs. Hostile inputs carry no spare capacity (a read past the end panics instead of passing); the real-database family rewrites several index rows in one flush.", "§4 C15"),
  "C16": ("differential against independent address / BIP32 / taproot-tree references",
          "Round-trips and cross-checks every address type on every (also synthetic) network, witness versions and program lengths, bech32/bech32m pairing, edit-distance mutations, script templates, WIF, BIP32 derivation and taproot control blocks.",
          "Point arithmetic via refec/btcec.", "§4 C16"),
  "C17": ("differential against naive parent-walk answers on real block trees",
          "Builds real chains (trunks up to 1100 / 3000 blocks with side branches and header-only nodes) and compares locators, locator-driven inventory, range/interval queries, membership, chain tips and the best-header view with naive answers; headers-first delivery must converge to the blocks-only chain and UTXO set.",
-         "Locator shape re-implemented from the protocol convention.", "§4 C17"),
+         "Locator shape re-implemented from the protocol convention. Family fan shared with C01/C02 (manual invalidation above then below on one branch).", "§4 C17"),
  "C18": ("event-history checking of real peers (handshake automaton, FIFO/exactly-once, goroutine census) + race detector",
          "Runs real peers against a scripted remote over an in-memory conn with injected delays/faults; checks the handshake automaton on enumerated scripts, per-sender FIFO and exactly-once completion signals from captured bytes, goroutine termination after disconnect, under -race with varied GOMAXPROCS.",
-         "Wall-clock timeouts (negotiation, idle) are never waited for, except the stall timer in the stall family (30-45 s per case under a 100 s watchdog whose expiry is inconclusive); termination is judged after both ends are closed with a generous settle watchdog.", "§4 C18, Appendix C, §12"),
+         "Wall-clock timeouts (negotiation, idle) are never waited for, except the stall timer in the stall family (30-45 s per case under a 100 s watchdog whose expiry is inconclusive); termination is judged after both ends are closed with a generous settle watchdog. Family invburst: thousands of inventory announcements between two trickle ticks.", "§4 C18, Appendix C, §12"),
  "C19": ("differential against an independent BIP324 endpoint + tamper monitor + race detector",
          "Runs real<->reference and real<->real handshakes and long packet streams across rekeys (byte-identical ciphertext demanded), then tampers with every byte class, truncates, drops, duplicates and swaps packets; ElligatorSwift functions against a math/big reference.",
-         "ChaCha20/Poly1305/HKDF from x/crypto trusted.", "§4 C19"),
+         "ChaCha20/Poly1305/HKDF from x/crypto trusted. A third of the reference sessions set the reserved header bits.", "§4 C19"),
  "C20": ("differential against independent GCS / bloom / merkle-block references",
          "Compares Golomb-coded sets, BIP158 filters and headers, bloom filters and merkle blocks with independent implementations incl. an independent BIP37 verifier; inserted elements must always match.",
-         "SipHash/murmur3 re-implemented; cfindex integration on a real chain is exercised separately when present.", "§4 C20"),
+         "SipHash/murmur3 re-implemented; cfindex integration on a real chain is exercised separately when present. The committed-filter index also has to catch up after the node ran without it.", "§4 C20"),
 }
 
 
